@@ -100,6 +100,12 @@ func (s *SuffrageStateBuilder) Build(
 				return lastheight, nil, nil, e.Wrap(err)
 			}
 
+			// NOTE the proof of the last height is proved with the chain; the
+			// last proof of remote should be that
+			if n := len(ps); n < 1 || ps[n-1] == nil || !ps[n-1].State().Hash().Equal(proof.State().Hash()) {
+				return lastheight, nil, nil, e.Errorf("last suffrage proof is not linked to the fetched proofs")
+			}
+
 			proofs = ps
 			proofs = append(proofs, proof)
 		}
